@@ -75,7 +75,7 @@ func c01Builtins() []c01Fn {
 var c01Shapes = []string{
 	`nil`, `true`, `""`, `"añb"`, `[]`, `[1, nil]`, `{}`, `{a: 1}`, `%{}`, `%{[1]: 2}`, `(1:3)`, `(nil:nil:nil)`, `{|x| x}`,
 	`<{|n| yield n if n < 2; recur(n + 1)}>.new(0)`, `1.try`, `1.try.{|q| q / 0}`, `1.try.{|q| q / 0}.err`, `1.5`, `Int`, `Obj`, `BaseObj`, `Int.bear`, `[1].bear`, `"s".bear`, `'sym`, `?c`,
-	`[["k", 1]]`, `[["s".bear({}), 1]]`, `[[Str, 1]]`, `[[1, 2], [3]]`, `{a: {b: [1]}}`,
+	`true - true`, `Int.bear.new(0)`, `Float.bear.new(0.0)`, `Str.bear.new("")`, `[["k", 1]]`, `[["s".bear({}), 1]]`, `[[Str, 1]]`, `[[1, 2], [3]]`, `{a: {b: [1]}}`,
 }
 
 // generic consumers of a built-in's result: printing, comparison, unpacking into calls and
@@ -90,7 +90,7 @@ var c01Consumers = []string{"r.S", "r.repr", "r == r", "[*r]", "{**r}", "%{**r}"
 // tier (empty and smallest values of each kind, boundary ints and floats)
 var c01BoundaryMode bool
 
-var c01Boundary = []string{`nil`, `""`, `"añb"`, `[]`, `[1, nil]`, `{}`, `%{}`, `(1:3)`, `{|x| x}`, `0`, `-1`, `7`, `-9223372036854775807 - 1`, `0.0`, `"NaN".F`, `true`}
+var c01Boundary = []string{`nil`, `""`, `"añb"`, `[]`, `[1, nil]`, `{}`, `%{}`, `(1:3)`, `{|x| x}`, `0`, `-1`, `7`, `-9223372036854775807 - 1`, `0.0`, `"NaN".F`, `true`, `true - true`, `Int.bear.new(0)`}
 
 func c01Arg(h *H, symbolic, indexer bool) object.PanObject {
 	if c01BoundaryMode {
